@@ -252,7 +252,11 @@ func gen(w *kit.Out, r *kit.Rand, tier string) {
 		w.Op("prog %d ok", seed)
 		n := rp.Range(3, 10)
 		for j := 0; j < n; j++ {
-			w.Op("call %d %d ok", seed, rp.Intn(nFuncs))
+			if rp.Chance(35) {
+				w.Op("run %d %d ok", seed, rp.U64()%1000000000)
+			} else {
+				w.Op("call %d %d ok", seed, rp.Intn(nFuncs))
+			}
 		}
 	}
 	// malformed stream
@@ -266,6 +270,8 @@ func gen(w *kit.Out, r *kit.Rand, tier string) {
 	w.Op("prog 12 err")
 	w.Op("call 12 0 ok")
 	w.Op("prog x ok")
+	w.Op("run 5 1 ok")
+	w.Op("run 12 x ok")
 	w.Op("prog 7 maybe")
 	for i := 0; i < 12; i++ {
 		w.Case(fmt.Sprintf("m%d", i+1))
